@@ -1,6 +1,7 @@
 (* C07_Proofs.v — proofs about C07_Model. *)
 From NV Require Import Base Generated C07_Model.
 Open Scope string_scope.
+Open Scope list_scope.
 
 (* ---------- small facts ---------- *)
 
@@ -245,3 +246,307 @@ Qed.
 Lemma trunc_add_unguarded_refuted :
   exists t d, (0 < d)%Z /\ ((t + d) / second <> t / second + d / second)%Z.
 Proof. exists 1999999999%Z, 1500000001%Z. split; [reflexivity|]. vm_compute. discriminate. Qed.
+
+(* ---------- the pipeline over an arbitrary JSON codec ---------- *)
+
+Definition in_int64 (z : Z) : Prop := (- max_int64 - 1 <= z <= max_int64)%Z.
+
+Definition exp_expiry (i : input) : option Z :=
+  if (i_dur i =? 0)%Z then None else Some (i_now i / second + i_dur i / second)%Z.
+
+Definition exp_agent (i : input) : string :=
+  let c := i_consts i in
+  match i_signer i with
+  | Local => if i_agent i =? "" then c_agent0 c else i_agent i
+  | Plug true _ _ => (c_agent0 c ++ " " ++ c_pname c ++ "/" ++ c_pver c)%string
+  | Plug false _ _ => c_penv_agent c
+  end.
+
+Definition exp_plugsig (i : input) (kn hn : string) : option (string * string) :=
+  match i_signer i with Plug true _ _ => Some (kn, hn) | _ => None end.
+
+Definition exp_plugenv (i : input) : option Z :=
+  match i_signer i with Plug false _ _ => Some (i_dur i / second)%Z | _ => None end.
+
+Definition exp_shash (i : input) (an : string) : option string :=
+  if is_blob (i_target i) then Some an else None.
+
+Lemma set_size_id : forall d, set_size d (d_size d) = d.
+Proof. intros []. reflexivity. Qed.
+
+Lemma append_nonempty : forall a c r, String.eqb (a ++ String c r)%string "" = false.
+Proof. intros [|x a] c r; reflexivity. Qed.
+
+(* what [legal] gives, as propositions *)
+Record legal_facts (i : input) (kn : string) : Prop := mk_lf {
+  lf_now : (0 <= i_now i)%Z;
+  lf_dur : (0 <= i_dur i)%Z;
+  lf_rem : Z.rem (i_dur i) second = 0%Z;
+  lf_fmt : i_format i = mt_jws \/ i_format i = mt_cose;
+  lf_signer : match i_signer i with
+              | Local => True
+              | Plug capsig capenv describe => (capsig = true \/ capenv = true) /\ describe = kn
+              end;
+  lf_nodup : nodup_keys (target_anns (i_target i) ++ i_meta i) = true;
+  lf_vnodup : nodup_keys (i_vmeta i) = true;
+  lf_kind : is_blob (i_target i) = is_blob (i_vtarget i);
+  lf_safe : safe_map (target_anns (i_target i) ++ i_meta i) = true;
+  lf_res : forall e, In e (i_meta i) -> has_prefix "io.cncf.notary" (fst e) = false;
+  lf_target : match i_target i with
+              | TOCI d => json_safe (d_mt d) = true /\ json_safe (d_digest d) = true
+              | TBlob b mt mt_ok => mt <> "" /\ mt_ok = true /\ json_safe mt = true
+                                    /\ json_safe (b_d256 b) = true /\ json_safe (b_d384 b) = true
+                                    /\ json_safe (b_d512 b) = true
+              end }.
+
+Lemma orb_split : forall a b, a || b = true -> a = true \/ b = true.
+Proof. intros a b H. apply orb_true_iff in H. exact H. Qed.
+
+Lemma legal_elim : forall i kn a hn an,
+  legal i = true -> spec_row (i_ks i) spec_table = Some (kn, a, hn, an) -> legal_facts i kn.
+Proof.
+  intros i kn a hn an H Hrow. unfold legal in H. rewrite Hrow in H.
+  repeat (apply andb_split in H; let H' := fresh "L" in destruct H as [H H']).
+  constructor.
+  - apply Z.leb_le. assumption.
+  - apply Z.leb_le. assumption.
+  - apply Z.eqb_eq. assumption.
+  - apply orb_split in L6. destruct L6 as [E|E]; apply String.eqb_eq in E; auto.
+  - destruct (i_signer i) as [|cs ce ds]; [exact I|].
+    apply andb_split in L5. destruct L5 as [E1 E2]. apply String.eqb_eq in E2. apply orb_split in E1. auto.
+  - assumption.
+  - assumption.
+  - apply Bool.eqb_prop. assumption.
+  - assumption.
+  - intros e Hin. rewrite forallb_forall in L0. apply L0 in Hin. apply negb_true_iff in Hin. exact Hin.
+  - destruct (i_target i) as [d|b mt mt_ok].
+    + apply andb_split in L. tauto.
+    + repeat (apply andb_split in L; let H' := fresh "T" in destruct L as [L H']).
+      apply negb_true_iff in L. repeat split; try assumption.
+      intros ->. discriminate.
+Qed.
+
+Lemma add_meta_ok : forall d meta,
+  nodup_keys (d_anns d ++ meta) = true ->
+  (forall e, In e meta -> has_prefix "io.cncf.notary" (fst e) = false) ->
+  add_meta d meta = Some (mk_descr (d_mt d) (d_digest d) (d_size d) (d_urls d) (d_anns d ++ meta)
+                                   (d_data d) (d_platform d) (d_atype d)).
+Proof.
+  intros d meta Hn Hr. unfold add_meta. rewrite existsb_false; [reflexivity|].
+  intros [k v] Hin. cbn [fst]. unfold reserved, gen_reserved_annotation_prefixes. cbn [existsb].
+  pose proof (Hr (k, v) Hin) as Hp. cbn [fst] in Hp. rewrite Hp. cbn [orb].
+  apply (nodup_app_no_key _ _ _ _ Hn Hin).
+Qed.
+
+Section Generic.
+  Variable bytes : Type.
+  Variable enc : descr -> bytes.
+  Variable dec : bytes -> option descr.
+  Variable top_keys tgt_keys : bytes -> list string.
+  Variable recode : bytes -> bytes.
+  (* what is assumed of encoding/json and of the JWS re-encoding *)
+  Hypothesis codec_rt : forall d, in_int64 (d_size d) -> dec (enc d) = Some (json_rt d).
+  Hypothesis codec_top : forall d, top_keys (enc d) = ["targetArtifact"].
+  Hypothesis codec_tgt : forall d, tgt_keys (enc d) = present_keys d.
+  Hypothesis codec_recode : forall d, recode (enc d) = enc (set_size d (jws_number (d_size d))).
+
+  Let gsign := sign bytes enc dec top_keys tgt_keys recode.
+  Let gverify := verify bytes dec.
+  Let gpipe := pipeline bytes enc dec top_keys tgt_keys recode.
+
+  Definition exp_env (i : input) (a : alg) (an : string) : envelope bytes :=
+    mk_env bytes (i_format i) a mt_payload (enc (expected_signed i an)) (i_now i / second)%Z (exp_expiry i) (exp_agent i).
+
+  (* core signs what the library built *)
+  Lemma core_sign_ok : forall i a D agent,
+    a <> A0 -> (0 <= i_dur i)%Z -> Z.rem (i_dur i) second = 0%Z ->
+    (i_format i = mt_jws \/ i_format i = mt_cose) ->
+    (i_format i = mt_cose \/ jws_number (d_size D) = d_size D) ->
+    core_sign bytes recode (i_format i) a (enc D) (i_now i)
+              (if (i_dur i =? 0)%Z then None else Some (i_now i + i_dur i)%Z) agent
+    = Some (mk_env bytes (i_format i) a mt_payload (enc D) (i_now i / second)%Z (exp_expiry i) agent).
+  Proof.
+    intros i a D agent Ha Hd Hr Hf Hs. unfold core_sign, exp_expiry.
+    assert (P : (if i_format i =? mt_jws then recode (enc D) else enc D) = enc D).
+    { destruct Hs as [Hs|Hs].
+      - rewrite Hs. reflexivity.
+      - destruct (i_format i =? mt_jws); [|reflexivity]. rewrite codec_recode, Hs, set_size_id. reflexivity. }
+    rewrite P.
+    destruct (i_dur i =? 0)%Z eqn:E; simpl.
+    - destruct a; congruence.
+    - apply Z.eqb_neq in E. rewrite trunc_add by assumption.
+      pose proof (dur_pos_secs _ Hr Hd E) as Hp.
+      replace (i_now i / second + i_dur i / second <=? i_now i / second)%Z with false
+        by (symmetry; apply Z.leb_gt; lia).
+      destruct a; congruence.
+  Qed.
+
+  Lemma generic_sign_ok : forall i k a D agent agent0,
+    sig_alg k = a -> a <> A0 -> (0 <= i_dur i)%Z -> Z.rem (i_dur i) second = 0%Z ->
+    (i_format i = mt_jws \/ i_format i = mt_cose) ->
+    (i_format i = mt_cose \/ jws_number (d_size D) = d_size D) ->
+    generic_sign bytes enc recode k true D (i_format i) (i_dur i) (i_now i) agent agent0
+    = Some (mk_env bytes (i_format i) a mt_payload (enc (sanitize D)) (i_now i / second)%Z (exp_expiry i)
+                   (if agent =? "" then agent0 else agent)).
+  Proof.
+    intros i k a D agent agent0 Hk Ha Hd Hr Hf Hs. unfold generic_sign. rewrite Hk.
+    rewrite (core_sign_ok i a (sanitize D)) by (try assumption; destruct D; exact Hs).
+    reflexivity.
+  Qed.
+
+  Lemma wf_elim : forall i, wf i = true ->
+    legal i = true /\ in_int64 (size_of (i_target i)) /\
+    (i_format i = mt_cose \/ jws_number (size_of (i_target i)) = size_of (i_target i)).
+  Proof.
+    intros i H. unfold wf in H.
+    apply andb_split in H. destruct H as [H W].
+    apply andb_split in H. destruct H as [H W0].
+    apply andb_split in H. destruct H as [H W1].
+    split; [assumption|]. split.
+    - unfold in_int64. apply Z.leb_le in W0, W1. lia.
+    - apply orb_split in W. destruct W as [E|E]; [left; apply String.eqb_eq in E | right; apply Z.eqb_eq in E]; assumption.
+  Qed.
+
+  Lemma blob_digest_safe : forall b an,
+    json_safe (b_d256 b) = true -> json_safe (b_d384 b) = true -> json_safe (b_d512 b) = true ->
+    coerce (blob_digest b an) = blob_digest b an.
+  Proof.
+    intros b an H1 H2 H3. unfold blob_digest.
+    destruct (an =? "sha256"); [apply json_safe_eq; assumption|].
+    destruct (an =? "sha384"); [apply json_safe_eq; assumption|].
+    destruct (an =? "sha512"); [apply json_safe_eq; assumption|reflexivity].
+  Qed.
+
+  Lemma signed_anns : forall i an, d_anns (expected_signed i an) = target_anns (i_target i) ++ i_meta i.
+  Proof. intros i an. unfold expected_signed. destruct (i_target i); reflexivity. Qed.
+
+  Lemma signed_size : forall i an, d_size (expected_signed i an) = size_of (i_target i).
+  Proof. intros i an. unfold expected_signed. destruct (i_target i); reflexivity. Qed.
+
+  (* JSON carries the descriptor that is signed unchanged *)
+  Lemma json_rt_signed : forall i kn an, legal_facts i kn ->
+    json_rt (expected_signed i an) = expected_signed i an.
+  Proof.
+    intros i kn an F. destruct F. unfold expected_signed in *.
+    destruct (i_target i) as [d|b mt mt_ok]; unfold json_rt; simpl in *.
+    - destruct lf_target0 as [S1 S2]. rewrite (json_safe_eq _ S1), (json_safe_eq _ S2), (rt_map_safe _ lf_safe0). reflexivity.
+    - destruct lf_target0 as (_ & _ & S1 & S2 & S3 & S4).
+      rewrite (json_safe_eq _ S1), (blob_digest_safe _ _ S2 S3 S4), (rt_map_safe _ lf_safe0). reflexivity.
+  Qed.
+
+  Lemma penv_expiry : forall dur now, (0 <= dur)%Z -> Z.rem dur second = 0%Z ->
+    (if (Z.quot dur second =? 0)%Z then None else Some (now + Z.quot dur second * second)%Z)
+    = (if (dur =? 0)%Z then None else Some (now + dur)%Z).
+  Proof.
+    intros dur now Hd Hr. rewrite Z.quot_div_nonneg by (try assumption; reflexivity).
+    rewrite (secs_mul _ Hr Hd).
+    destruct (dur =? 0)%Z eqn:E.
+    - apply Z.eqb_eq in E. subst. reflexivity.
+    - apply Z.eqb_neq in E. pose proof (dur_pos_secs _ Hr Hd E).
+      replace (dur / second =? 0)%Z with false by (symmetry; apply Z.eqb_neq; lia). reflexivity.
+  Qed.
+
+  Lemma content_equal_refl : forall d, content_equal d d = true.
+  Proof. intros d. unfold content_equal. rewrite Z.eqb_refl, !str_eqb_refl. reflexivity. Qed.
+
+  Lemma sanitized_no_unknown : forall X, X = sanitize X -> unknown_attrs bytes top_keys tgt_keys (enc X) = [].
+  Proof.
+    intros X HX. unfold unknown_attrs. rewrite codec_top, codec_tgt. rewrite HX.
+    unfold present_keys, sanitize. simpl. destruct (d_anns X); reflexivity.
+  Qed.
+
+  (* generateSignatureEnvelope accepts what a faithful envelope plugin returns *)
+  Lemma plugin_envelope_ok : forall i kn a D an,
+    legal_facts i kn -> sig_alg (i_ks i) = a -> a <> A0 ->
+    sanitize D = expected_signed i an -> d_anns D = d_anns (expected_signed i an) ->
+    in_int64 (size_of (i_target i)) ->
+    (i_format i = mt_cose \/ jws_number (size_of (i_target i)) = size_of (i_target i)) ->
+    plugin_envelope bytes enc dec top_keys tgt_keys recode (i_ks i) D (i_format i) (i_dur i) (i_now i) (c_penv_agent (i_consts i))
+    = ((i_dur i / second)%Z,
+       Some (mk_env bytes (i_format i) a mt_payload (enc (expected_signed i an)) (i_now i / second)%Z (exp_expiry i)
+                    (c_penv_agent (i_consts i)))).
+  Proof.
+    intros i kn a D an F Hk Ha HD HA Hsz Hj. pose proof F as F'. destruct F.
+    unfold plugin_envelope. rewrite Hk.
+    rewrite penv_expiry by assumption. rewrite Z.quot_div_nonneg by (try assumption; reflexivity).
+    assert (Hsize : d_size (sanitize D) = size_of (i_target i)) by (rewrite HD; apply signed_size).
+    rewrite (core_sign_ok i a (sanitize D)) by (try assumption; rewrite Hsize; assumption).
+    cbn [e_ctype e_payload]. rewrite str_eqb_refl.
+    rewrite codec_rt by (rewrite Hsize; assumption).
+    rewrite HD, (json_rt_signed i kn an F').
+    assert (CE : content_equal D (expected_signed i an) = true).
+    { rewrite <- HD. unfold content_equal, sanitize. simpl. rewrite Z.eqb_refl, !str_eqb_refl. reflexivity. }
+    rewrite CE. rewrite HA, submap_refl by (rewrite signed_anns; assumption).
+    rewrite sanitized_no_unknown by (rewrite <- HD; destruct D; reflexivity).
+    reflexivity.
+  Qed.
+
+  Lemma validate_ok : forall i kn, legal_facts i kn -> validate_sign_args (i_format i) (i_dur i) = true.
+  Proof.
+    intros i kn F. destruct F. unfold validate_sign_args. rewrite lf_rem0.
+    replace (i_dur i <? 0)%Z with false by (symmetry; apply Z.ltb_ge; assumption).
+    destruct lf_fmt0 as [E|E]; rewrite E; reflexivity.
+  Qed.
+
+  (* closed form of what the signing API produces on a well-formed input *)
+  Lemma sign_closed : forall i kn a hn an,
+    wf i = true -> spec_row (i_ks i) spec_table = Some (kn, a, hn, an) ->
+    gsign i = mk_sres bytes 0 (exp_shash i an) (exp_plugsig i kn hn) (exp_plugenv i) (Some (exp_env i a an)).
+  Proof.
+    intros i kn a hn an Hwf Hrow.
+    destruct (wf_elim i Hwf) as (Hl & Hsz & Hj).
+    pose proof (legal_elim i kn a hn an Hl Hrow) as F.
+    destruct (tables_agree _ _ _ _ _ Hrow) as (Ta & Tne & Ts & Tv & Te & Td & Th).
+    unfold gsign, sign. rewrite (validate_ok i kn F). cbn [negb].
+    pose proof F as F'. destruct F.
+    unfold exp_env, exp_shash, exp_plugsig, exp_plugenv, exp_agent.
+    destruct (i_target i) as [d|b mt mt_ok] eqn:Ht; cbn [is_blob target_anns size_of] in *.
+    - (* OCI *)
+      rewrite (add_meta_ok d (i_meta i) lf_nodup0 lf_res0).
+      set (D := mk_descr (d_mt d) (d_digest d) (d_size d) (d_urls d) (d_anns d ++ i_meta i) (d_data d) (d_platform d) (d_atype d)).
+      assert (HD : sanitize D = expected_signed i an) by (unfold expected_signed; rewrite Ht; reflexivity).
+      assert (HA : d_anns D = d_anns (expected_signed i an)) by (rewrite <- HD; reflexivity).
+      assert (HS : d_size D = d_size d) by reflexivity.
+      unfold signer_sign.
+      destruct (i_signer i) as [|capsig capenv describe] eqn:Hs.
+      + rewrite (generic_sign_ok i (i_ks i) a D) by (try assumption; rewrite HS; assumption).
+        rewrite HD. reflexivity.
+      + destruct lf_signer0 as [Hcap Hdesc]. subst describe.
+        destruct capsig.
+        * rewrite Td. unfold plugin_generate.
+          rewrite Ta. rewrite (core_sign_ok i a (sanitize D)) by (try assumption; destruct D; exact Hj).
+          rewrite Te, Th, keyspec_eqb_refl.
+          rewrite (generic_sign_ok i (i_ks i) a D) by (try assumption; rewrite HS; assumption).
+          rewrite HD. rewrite append_nonempty. reflexivity.
+        * destruct Hcap as [Hcap|Hcap]; [discriminate|]. subst capenv.
+          rewrite (plugin_envelope_ok i kn a D an F' Ta Tne HD HA) by (rewrite Ht; assumption).
+          reflexivity.
+    - (* blob *)
+      destruct lf_target0 as (Hmt & Hok & _). subst mt_ok.
+      replace (mt =? "") with false by (symmetry; apply String.eqb_neq; assumption).
+      cbn [orb negb].
+      assert (HB : blob_descriptor b mt (i_meta i) an
+                   = Some (mk_descr mt (blob_digest b an) (b_size b) [] (i_meta i) "" "" "")).
+      { unfold blob_descriptor. rewrite add_meta_ok by assumption. reflexivity. }
+      set (D := mk_descr mt (blob_digest b an) (b_size b) [] (i_meta i) "" "" "") in *.
+      assert (HD : sanitize D = expected_signed i an) by (unfold expected_signed; rewrite Ht; reflexivity).
+      assert (HA : d_anns D = d_anns (expected_signed i an)) by (rewrite <- HD; reflexivity).
+      assert (HS : d_size D = b_size b) by reflexivity.
+      unfold signer_sign_blob.
+      destruct (i_signer i) as [|capsig capenv describe] eqn:Hs.
+      + rewrite Ta, Ts, HB.
+        rewrite (generic_sign_ok i (i_ks i) a D) by (try assumption; rewrite HS; assumption).
+        rewrite HD. reflexivity.
+      + destruct lf_signer0 as [Hcap Hdesc]. subst describe.
+        rewrite Td, Ta, Ts, HB.
+        destruct capsig.
+        * unfold plugin_generate.
+          rewrite Ta. rewrite (core_sign_ok i a (sanitize D)) by (try assumption; exact Hj).
+          rewrite Te, Th, keyspec_eqb_refl.
+          rewrite (generic_sign_ok i (i_ks i) a D) by (try assumption; rewrite HS; assumption).
+          rewrite HD. rewrite append_nonempty. reflexivity.
+        * destruct Hcap as [Hcap|Hcap]; [discriminate|]. subst capenv.
+          rewrite (plugin_envelope_ok i kn a D an F' Ta Tne HD HA) by (rewrite Ht; assumption).
+          reflexivity.
+  Qed.
+End Generic.
